@@ -73,6 +73,8 @@ type blockInfo struct {
 	holders []int // initial holders
 	late    int   // node that gets the block late (-1 none)
 	lateMs  int
+	lateT0  atomic.Int64 // logical time just before the late Blockstore.Put
+	lateT1  atomic.Int64 // logical time just after NotifyNewBlocks returned (0 = not placed yet)
 }
 
 type recv struct {
@@ -151,8 +153,9 @@ type nodeTracer struct {
 	firstRecv map[string]int64 // logical time of the first arrival of the block
 	w         *world
 	// what the OTHER nodes saw arriving from this node (filled by their tracers)
-	wantsSeen   map[string]int // want entries for the CID that reached some peer
-	cancelsSeen map[string]int // cancel entries for the CID that reached some peer
+	dontHaves   map[string]int64 // "<sender node>/<cid>" -> logical time of the last DONT_HAVE this node received
+	wantsSeen   map[string]int   // want entries for the CID that reached some peer
+	cancelsSeen map[string]int   // cancel entries for the CID that reached some peer
 }
 
 func (t *nodeTracer) MessageReceived(from peer.ID, m bsmsg.BitSwapMessage) {
@@ -167,6 +170,19 @@ func (t *nodeTracer) MessageReceived(from peer.ID, m bsmsg.BitSwapMessage) {
 				}
 			}
 			st.mu.Unlock()
+		}
+	}
+	if dh := m.DontHaves(); len(dh) > 0 {
+		t.w.peersMu.RLock()
+		idx, ok := t.w.peerIdx[from]
+		t.w.peersMu.RUnlock()
+		if ok {
+			now := t.clock.Add(1)
+			t.mu.Lock()
+			for _, c := range dh {
+				t.dontHaves[fmt.Sprint(idx, "/", c.KeyString())] = now
+			}
+			t.mu.Unlock()
 		}
 	}
 	bl := m.Blocks()
@@ -574,7 +590,7 @@ func (w *world) execute(n int, d delay.D, psd time.Duration) {
 		if err != nil {
 			panic(err)
 		}
-		tr := &nodeTracer{clock: &w.clock, w: w, recv: map[string]int{}, firstRecv: map[string]int64{}, wantsSeen: map[string]int{}, cancelsSeen: map[string]int{}}
+		tr := &nodeTracer{clock: &w.clock, w: w, recv: map[string]int{}, firstRecv: map[string]int64{}, wantsSeen: map[string]int{}, cancelsSeen: map[string]int{}, dontHaves: map[string]int64{}}
 		w.peersMu.Lock()
 		if w.peerIdx == nil {
 			w.peerIdx = map[peer.ID]int{}
@@ -631,10 +647,12 @@ func (w *world) execute(n int, d delay.D, psd time.Duration) {
 			case <-w.ctx.Done():
 				return
 			}
+			b.lateT0.Store(w.clock.Add(1))
 			if err := w.insts[b.late].Blockstore.Put(bg, b.blk); err != nil {
 				panic(err)
 			}
 			w.insts[b.late].Exchange.NotifyNewBlocks(bg, b.blk)
+			b.lateT1.Store(w.clock.Add(1))
 			w.events.Add(1)
 		}(b)
 	}
@@ -1080,7 +1098,27 @@ func (w *world) reportUndelivered(q *req, why string) {
 	for _, n := range rc {
 		allArrived = allArrived && n > 0
 	}
+	// Measured feature for the server-side intake race: every missing key was
+	// placed late on its only holder, the block never reached this node, the
+	// key is still on the want-list, and the requester's tracer saw a
+	// DONT_HAVE for it from that holder AFTER NotifyNewBlocks had returned
+	// there (the holder denied a block it already had, and a want that got an
+	// answer is not re-sent).
+	lateDenied := len(miss) > 0 && !w.missingAllDropped()
+	var lateInfo []string
+	for i, x := range miss {
+		b := w.blks[x]
+		t1 := b.lateT1.Load()
+		w.tracers[q.node].mu.Lock()
+		tdh := w.tracers[q.node].dontHaves[fmt.Sprint(b.late, "/", b.blk.Cid().KeyString())]
+		w.tracers[q.node].mu.Unlock()
+		ok := b.late >= 0 && len(b.holders) == 0 && t1 > 0 && tdh > t1 && rc[i] == 0
+		lateDenied = lateDenied && ok
+		lateInfo = append(lateInfo, fmt.Sprintf("%s: late holder node %d, placed at logical time %d..%d, last DONT_HAVE from that node received at %d", b.name, b.late, b.lateT0.Load(), t1, tdh))
+	}
 	switch {
+	case lateDenied:
+		class = "not-delivered/dont-have-after-late-placement"
 	case len(trig) > 0:
 		// a sibling fetch of the same session wanting the key was cancelled
 		class = "not-delivered/same-session-cancel"
@@ -1099,7 +1137,7 @@ func (w *world) reportUndelivered(q *req, why string) {
 	inst := w.insts[q.node].Exchange
 	w.k.Fail(class, "every requested block held by another connected node is delivered (stable state)",
 		"all obtainable keys delivered to r"+fmt.Sprint(q.id),
-		fmt.Sprintf("%s; r%d (%s sess=%d) misses %v; same-session cancelled fetches: %v; same-session fetches that received the key: %v; node received the missing blocks %v time(s); node want-list=%s", why, q.id, q.kind, q.sess, names, trig, trigRe, w.recvCounts(q.node, miss), w.namesOf(inst.GetWantlist())))
+		fmt.Sprintf("%s; r%d (%s sess=%d) misses %v; same-session cancelled fetches: %v; same-session fetches that received the key: %v; node received the missing blocks %v time(s); late placements: %v; node want-list=%s", why, q.id, q.kind, q.sess, names, trig, trigRe, w.recvCounts(q.node, miss), lateInfo, w.namesOf(inst.GetWantlist())))
 }
 
 func (w *world) recvCounts(node int, blks []int) []int {
